@@ -650,7 +650,7 @@ func (ex *Exec) allEq(s Slice, name string, n *Term) *Term {
 // x_level + delta), the indices at which the source of content can change.
 func (ex *Exec) breakpoints(ct symContent, delta *Term, out *[]*Term, seen map[int]bool, depth int) {
 	c := ex.C
-	if depth > 60 {
+	if depth > 400 {
 		panic(unsupported("content tree too deep in ciphertext comparison"))
 	}
 	add := func(t *Term) {
